@@ -57,7 +57,7 @@ func c01Monitor(c *plCfg, q *plQuery, o *plObs) (ok bool, msg string) {
 	if o.Panic != nil {
 		return false, fmt.Sprintf("panic: %v", o.Panic)
 	}
-	early := (c.AAAADisabled && q.QType == dns.TypeAAAA)
+	early := (c.AAAADisabled && q.QType == dns.TypeAAAA) || q.Name == mozillaFQDN || q.Name == healthcheckFQDN
 	if early {
 		return true, ""
 	}
@@ -287,8 +287,8 @@ func TestVerifC01(t *testing.T) {
 	}
 
 	// --- random configurations
-	nCfg := out.Scale(120, 2400)
-	perCfg := 10
+	nCfg := out.Scale(300, 6000)
+	perCfg := 12
 	for i := 0; i < nCfg; i++ {
 		c := plGenCfg(rnd, vfNames)
 		ps := plNewServer(t, c)
